@@ -273,6 +273,43 @@ TARGETS = [
     dict(name="propertySizeBytes", group="Stats", file="src/creator/directory_pack/schema/property.rs", fn="from", after=r"From<PropertySize<T>> for ByteSize",
          cfg=dict(params=[("p", "SrcSize")], ret="Nat", patterns={"PropertySize::Fixed": "SrcSize.fixed", "PropertySize::Auto": "SrcSize.auto"},
                   funcs={"needed_bytes": "((Generated.neededBytes (Int.toNat {0})).getD 0)"})),
+    # ---- the per-property statistics pass (`Property::process`) and the conversion to the layout (`finalize`)
+    dict(name="schemaPropertyProcess", group="Stats", file="src/creator/directory_pack/schema/property.rs", fn="process", after=r"pub fn new_content_address",
+         enums=[dict(rust="Property", file="src/creator/directory_pack/schema/property.rs", lean="SrcSchemaProp", self_prefix=True,
+                     types={"ValueCounter<u64>": "SrcCounter", "ValueCounter<i64>": "SrcCounter", "ValueCounter<u16>": "SrcCounter",
+                            "PropertySize<u64>": "SrcSize", "PropertySize<i64>": "SrcSize", "PropertySize<usize>": "SrcSize",
+                            "PropertySize<u16>": "SrcSize", "PropertySize<u32>": "SrcSize", "PN": "List UInt8", "usize": "Nat",
+                            "StoreHandle": "Nat", "u8": "Nat"}),
+                dict(rust="Value", file="src/creator/directory_pack/value.rs", lean="SrcValue",
+                     types={"ContentAddress": "(Int × Int)", "u64": "Int", "i64": "Int", "Box<Word<u64>>": "Int", "Box<Word<i64>>": "Int",
+                            "Box<ValueHandle>": "Nat", "Box<ArrayS<0>>": "Int", "Box<ArrayS<1>>": "Int", "Box<ArrayS<2>>": "Int", "Box<Array>": "Int"})],
+         cfg=dict(params=[("p", "SrcSchemaProp"), ("val", "SrcValue")], ret="SrcSchemaProp", partial=True, int=True,
+                  prelude="let self_ := p", paths={"self": "self_"}, result="self_", ignore_macros=["assert"],
+                  mutself=dict(var="self_", arm_results={}),
+                  exprs={"entry.value(name).as_ref()": "val"},
+                  methods={"get": "{recv}", ".size": "{recv}", ".pack_id": "({recv}).1", ".content_id": "({recv}).2"},
+                  funcs={"signed_size_key": "(Generated.signedSizeKey {0})"},
+                  mut_methods={("counter", "process"): "valueCounterProcess", ("size", "process"): "propertySizeProcess",
+                               ("pack_id_counter", "process"): "valueCounterProcess", ("pack_id_size", "process"): "propertySizeProcess",
+                               ("content_id_size", "process"): "propertySizeProcess", ("max_array_size", "process"): "propertySizeProcess"})),
+    dict(name="schemaPropertyFinalize", group="Stats", file="src/creator/directory_pack/schema/property.rs", fn="finalize", after=r"pub\(crate\) fn process",
+         enums=[dict(rust="Property", file="src/creator/directory_pack/schema/property.rs", lean="SrcSchemaProp", self_prefix=True, declare=False,
+                     types={"ValueCounter<u64>": "SrcCounter", "ValueCounter<i64>": "SrcCounter", "ValueCounter<u16>": "SrcCounter",
+                            "PropertySize<u64>": "SrcSize", "PropertySize<i64>": "SrcSize", "PropertySize<usize>": "SrcSize",
+                            "PropertySize<u16>": "SrcSize", "PropertySize<u32>": "SrcSize", "PN": "List UInt8", "usize": "Nat",
+                            "StoreHandle": "Nat", "u8": "Nat"}),
+                dict(rust="Property", file="src/creator/directory_pack/layout/property.rs", lean="SrcProperty", declare=False, ctor_prefixes=["layout::Property"],
+                     types={"&'static str": "List UInt8", "PN": "List UInt8", "u8": "Nat", "ByteSize": "Nat", "StoreHandle": "Nat",
+                            "Option<ByteSize>": "Option Nat", "Option<(ByteSize, StoreHandle)>": "Option (Nat × Nat)",
+                            "Option<u16>": "Option Nat", "Option<u64>": "Option Nat", "Option<i64>": "Option Int"})],
+         cfg=dict(params=[("keySize", "Nat → Nat"), ("p", "SrcSchemaProp")], ret="SrcProperty", paths={"self": "p"},
+                  exprs={"store_handle.key_size()": "(keySize store_handle)", "store_handle.clone()": "store_handle",
+                         "max_array_size.into()": "(propertySizeBytes max_array_size)", "size.into()": "(propertySizeBytes size)",
+                         "content_id_size.into()": "(propertySizeBytes content_id_size)", "pack_id_size.into()": "(propertySizeBytes pack_id_size)"},
+                  block_match=True,
+                  arm_exprs={"Self::UnsignedInt": {"counter.into()": "((valueCounterDefault counter).map Int.toNat)"},
+                             "Self::SignedInt": {"counter.into()": "(valueCounterDefault counter)"},
+                             "Self::ContentAddress": {"pack_id_counter.into()": "((valueCounterDefault pack_id_counter).map Int.toNat)"}})),
 ]
 
 
@@ -436,6 +473,7 @@ def apply_enums(t):
                     raise rs2lean.Untranslatable(f"enum {en['rust']}: variant {v} has no discriminant")
                 cfg.setdefault("paths", {})[f"{en['rust']}::{v}"] = rs2lean.int_literal(disc)
             continue
+        declare = en.get("declare", True)
         lines = [f"inductive {en['lean']} where"]
         for v, fields, _d in variants:
             ctor = lower_first(v)
@@ -445,17 +483,23 @@ def apply_enums(t):
                     raise rs2lean.Untranslatable(f"enum {en['rust']}: field type not in the table: {fty}")
                 args.append(f"({fname or 'x' + str(k)} : {en['types'][fty]})")
             lines.append(f"  | {ctor} " + " ".join(args))
-            full = f"{en['rust']}::{v}"
-            if fields and fields[0][0] is not None:
-                cfg.setdefault("struct_patterns", {})[full] = (f"{en['lean']}.{ctor}", [f for f, _ in fields])
-            else:
-                cfg.setdefault("patterns", {})[full] = f"{en['lean']}.{ctor}"
+            for pre in en.get("ctor_prefixes", []):
+                if fields and fields[0][0] is not None:
+                    cfg.setdefault("struct_ctors", {})[f"{pre}::{v}"] = (f"{en['lean']}.{ctor}", [f for f, _ in fields])
+                else:
+                    cfg.setdefault("funcs", {})[f"{pre}::{v}"] = f"({en['lean']}.{ctor}" + "".join(" {%d}" % i for i in range(len(fields or []))) + ")"
+            for full in [f"{en['rust']}::{v}"] + ([f"Self::{v}"] if en.get("self_prefix") else []):
+                if fields and fields[0][0] is not None:
+                    cfg.setdefault("struct_patterns", {})[full] = (f"{en['lean']}.{ctor}", [f for f, _ in fields])
+                else:
+                    cfg.setdefault("patterns", {})[full] = f"{en['lean']}.{ctor}"
         lines.append("  deriving Repr, DecidableEq")
-        decls.append("\n".join(lines) + "\n")
+        if declare:
+            decls.append("\n".join(lines) + "\n")
     return "\n".join(decls)
 
 
-GROUP_IMPORTS = {"Stats": ["JubakoModel.Generated.FuncsBytes"], "Lookup": [], "Fs": ["JubakoModel.Model.BasicCreatorFs"], "Sync": ["JubakoModel.Model.SyncVec"], "Pipe": ["JubakoModel.Model.Pipeline"], "Proto": ["JubakoModel.Model.FileCursor"], "Search": ["JubakoModel.Generated.FuncsBytes"], "Content": ["JubakoModel.Generated.FuncsBytes"], "Dir": ["JubakoModel.Generated.FuncsBytes", "JubakoModel.Model.Bytes"]}
+GROUP_IMPORTS = {"Stats": ["JubakoModel.Generated.FuncsBytes", "JubakoModel.Generated.FuncsDir"], "Lookup": [], "Fs": ["JubakoModel.Model.BasicCreatorFs"], "Sync": ["JubakoModel.Model.SyncVec"], "Pipe": ["JubakoModel.Model.Pipeline"], "Proto": ["JubakoModel.Model.FileCursor"], "Search": ["JubakoModel.Generated.FuncsBytes"], "Content": ["JubakoModel.Generated.FuncsBytes"], "Dir": ["JubakoModel.Generated.FuncsBytes", "JubakoModel.Model.Bytes"]}
 GROUP_ORDER = ["Bytes", "Content", "Dir", "Order", "Search", "View", "Check", "Proto", "Pipe", "Sync", "Fs", "Lookup", "Stats"]
 
 
